@@ -6,7 +6,7 @@ VARIABLES tid, l, verdict, vkind, vnew, seen
 
 kvars == <<tid, l, verdict, vkind, vnew, seen>>
 Batch == JsonDeserialize(IOEnv.TRACE_FILE)
-T == Batch[tid]
+Tr == Batch[tid]
 ToSet(seq) == {seq[i] : i \in 1..Len(seq)}
 
 KInit == /\ tid \in 1..Len(Batch) /\ l = 1 /\ verdict = "" /\ vkind = "" /\ vnew = FALSE /\ seen = {}
